@@ -520,7 +520,7 @@ def classify_known(pid, c):
     return None
 
 
-def confirm(pid, cases, pred, max_cases=6, tries=2):
+def confirm(pid, cases, pred, max_cases=30, tries=2):
     """Re-execute failing cases (smallest first) and keep those on which the failure shows again. Many harnesses
     measure real time (hang detection, tick tolerances, waiting for goroutines): on a loaded machine a run can time
     out without anything being wrong. A failure that is never seen again when the same case is re-executed alone is
